@@ -39,7 +39,7 @@ def oracle(prog, obs, impl):
         if abs(got - want) > abs(want) * tol:
             fails.append((i, f"requested {dsl.qty_str(q)}, the new solution holds {float(got)!r} {q['b']}"))
         gc = C05_conc(subs, new, op['solute'], nb, db)
-        if gc is None or abs(gc - tv) > abs(tv) * tol + F(2, 10**10):
+        if gc is None or abs(gc - tv) > abs(tv) * tol + min(F(2, 10**10), abs(tv) / 1000):      # (nano-scale targets: to a part in a thousand)
             fails.append((i, f"requested {dsl.conc_str(op['c'])}, the new solution has {float(gc) if gc is not None else None!r} {nb}/{db}"))
         # conservation and aliquots
         inputs = [src]
